@@ -3,28 +3,28 @@
 # obligation) and harmless corpus (behaviour-preserving edits must stay silent), on a scratch copy of /repo.
 export GOFLAGS=-mod=mod GOPROXY=off GOSUMDB=off GOTOOLCHAIN=local VERIF_NO_EVIDENCE=1
 cd /verif; only=$1
-S=$(mktemp -d /tmp/selftest_repo.XXXX); trap "rm -rf $S" EXIT
+S=$(mktemp -d /tmp/selftest_repo.XXXX); trap "rm -rf $S $S.bak" EXIT
 rsync -a --exclude .git /repo/ $S/
 export VERIF_REPO=$S
 fail=0; n=0
 while IFS=$'\t' read -r prop file expr expect; do
   [[ "$prop" == \#* || -z "$prop" ]] && continue
   [[ -n "$only" && "$only" != "$prop" ]] && continue
-  n=$((n+1)); cp $S/$file /tmp/selftest.bak; sed -i "$expr" $S/$file
-  if cmp -s $S/$file /tmp/selftest.bak; then echo "NOT-APPLIED $prop $file $expr"; fail=1; continue; fi
-  if ! (cd $(dirname $S/$file) && go build ./... >/dev/null 2>&1); then echo "DOES-NOT-COMPILE $prop $file $expr"; cp /tmp/selftest.bak $S/$file; fail=1; continue; fi
+  n=$((n+1)); cp $S/$file $S.bak; sed -i "$expr" $S/$file
+  if cmp -s $S/$file $S.bak; then echo "NOT-APPLIED $prop $file $expr"; fail=1; continue; fi
+  if ! (cd $(dirname $S/$file) && go build ./... >/dev/null 2>&1); then echo "DOES-NOT-COMPILE $prop $file $expr"; cp $S.bak $S/$file; fail=1; continue; fi
   out=$(./bin/check $prop 2>&1); ec=$?
   if [[ $ec -eq 1 ]] && echo "$out" | grep "^VIOLATION" | grep -q -- "$expect"; then echo "detected   $prop  $expect"; else echo "MISSED     $prop $file [$expr] exit=$ec expected $expect"; echo "$out" | grep "^VIOLATION" | head -3; fail=1; fi
-  cp /tmp/selftest.bak $S/$file
+  cp $S.bak $S/$file
 done < selftest/mutants.tsv
 while IFS=$'\t' read -r prop file expr; do
   [[ "$prop" == \#* || -z "$prop" ]] && continue
   [[ -n "$only" && "$only" != "$prop" ]] && continue
-  n=$((n+1)); cp $S/$file /tmp/selftest.bak; sed -i "$expr" $S/$file
-  if cmp -s $S/$file /tmp/selftest.bak; then echo "NOT-APPLIED(harmless) $prop $file"; fail=1; continue; fi
-  if ! (cd $(dirname $S/$file) && go build ./... >/dev/null 2>&1); then echo "DOES-NOT-COMPILE(harmless) $prop $file"; cp /tmp/selftest.bak $S/$file; fail=1; continue; fi
+  n=$((n+1)); cp $S/$file $S.bak; sed -i "$expr" $S/$file
+  if cmp -s $S/$file $S.bak; then echo "NOT-APPLIED(harmless) $prop $file"; fail=1; continue; fi
+  if ! (cd $(dirname $S/$file) && go build ./... >/dev/null 2>&1); then echo "DOES-NOT-COMPILE(harmless) $prop $file"; cp $S.bak $S/$file; fail=1; continue; fi
   out=$(./bin/check $prop 2>&1); ec=$?
   if [[ $ec -eq 0 ]]; then echo "silent     $prop  (harmless edit of $file)"; else echo "FALSE-ALARM $prop $file [$expr]"; echo "$out" | grep "^VIOLATION" | head -3; fail=1; fi
-  cp /tmp/selftest.bak $S/$file
+  cp $S.bak $S/$file
 done < selftest/harmless.tsv
 echo "selftest: $n cases, failures=$fail"; exit $fail
